@@ -10,6 +10,15 @@ C = "inkayaku_core::constants::"
 PS = B + "PlayerState::"
 
 
+def subtrees(t):
+    if isinstance(t, tuple):
+        yield t
+        for x in t:
+            if isinstance(x, tuple):
+                for y in subtrees(x):
+                    yield y
+
+
 def jval(t):
     """python value of a constant tree holding a struct (hashed json)"""
     if t[0] == "c" and isinstance(t[1], tuple) and t[1] and t[1][0] == "json":
@@ -132,14 +141,59 @@ def r2_tables(ctx):
     rd = ctx.fn(rid, B + "<Fen as FenParseExt>::parse_player_states")
     rcfg, rex = Cfg(rd), Exprs(rd)
     reader_c = {}
+    reader_extra = {}
+
+    def value_and_guards(stmt_block, v, depth=0):
+        """trees that decide the value written: the value itself, for a conditionally assigned temporary every
+        assignment to it, and the discriminants those assignments are control dependent on (an `a && b && c` chain)"""
+        trees = [v]
+        if v[0] == "local" and depth < 3:
+            for dfn in rex.defs.get(v[1], ()):
+                if dfn[0] == "stmt":
+                    bb_ = dfn[1]
+                    trees += value_and_guards(bb_, rex.rvalue(dfn[3]), depth + 1)
+                    for (a, sb) in rcfg.control_deps_transitive(bb_):
+                        sw = rd["blocks"][a]["term"]
+                        if sw["k"] == "switch":
+                            trees.append(rex.operand(sw["discr"]))
+        return trees
+
     for b in sorted(rcfg.reach):
         for s in rd["blocks"][b]["stmts"]:
             d = s["dst"]
             if d is not None and d["p"] and isinstance(d["p"][-1], dict) and d["p"][-1].get("name", "").endswith("_castle"):
-                v = rex.rvalue(s["rv"])
-                ch = [x[1] for x in leaves(v) if x[0] == "c" and x[2] == "char"]
+                trees = value_and_guards(b, rex.rvalue(s["rv"]))
+                ch = sorted({x[1] for t_ in trees for x in leaves(t_) if x[0] == "c" and x[2] == "char"})
                 owner = rd.get("names", {}).get(str(d["l"]))
-                reader_c[(owner, d["p"][-1]["name"])] = ch[0] if ch else None
+                reader_c[(owner, d["p"][-1]["name"])] = ch[0] if len(ch) == 1 else (None if not ch else "/".join(ch))
+                # further conjuncts: `pieces(player) & MASK != 0`
+                extra = []
+                for t_ in trees:
+                    for sub in subtrees(t_):
+                        if sub[0] == "bin" and sub[1] == "BitAnd":
+                            acc = [x for x in (sub[2], sub[3]) if x[0] == "call" and x[1].startswith(PS)]
+                            msk = [x for x in (sub[2], sub[3]) if x[0] == "c" and isinstance(x[1], int)]
+                            if len(acc) == 1 and len(msk) == 1:
+                                pl = acc[0][2][0]
+                                while pl[0] in ("&", "*"):
+                                    pl = pl[1]
+                                pl_name = rd.get("names", {}).get(str(pl[1])) if pl[0] == "local" else ([y[2] for y in leaves(pl) if y[0] == "f"] or [None])[-1]
+                                extra.append((acc[0][1][len(PS):], pl_name, msk[0][1]))
+                reader_extra[(owner, d["p"][-1]["name"])] = sorted(set(extra))
+    # a reader that additionally demands king and rook on their home squares keeps every legal position's rights;
+    # the squares must be the right ones (geometry oracle: index = file + 8 * row, row 0 = rank 8, mask = 1 << index)
+    def home_mask(file_, row):
+        return 1 << (file_ + 8 * row)
+    for (owner, fld), extra in sorted(reader_extra.items(), key=str):
+        if not extra:
+            continue
+        row = 7 if owner == "white" else 0
+        allowed = {("kings", owner, home_mask(4, row)), ("rooks", owner, home_mask(7 if fld.startswith("king") else 0, row))}
+        bad = [e for e in extra if e not in allowed]
+        ctx.ob(rid, "reader|castling-right-extra-conditions|%s.%s" % (owner, fld), not bad,
+               "" if not bad else "the reader keeps %s.%s only if %s - for a legal position with that right the king stands on e%d and the rook on %s%d, so this condition drops a right the FEN grants" % (
+                   owner, fld, ["%s(%s) & %#x != 0" % e for e in bad], 1 if owner == "white" else 8, "h" if fld.startswith("king") else "a", 1 if owner == "white" else 8),
+               ctx.where(rd), sample={"conditions": ["%s(%s) & %#x" % e for e in extra]})
     wr = ctx.fn(rid, B + "<Fen as From<&Bitboard>>::from")
     wcfg, wex = Cfg(wr), Exprs(wr)
     writer_c = {}
@@ -308,7 +362,97 @@ def r4_defaults(ctx):
         ctx.ob(rid, nm, bool(ok), "" if ok else "%s defaults to %r over field %s (expected %r over %s)" % (nm, got, fld, want, nm[4:]), ctx.where(f), sample={"getter": nm, "default": got})
 
 
+def r5_rejections(ctx):
+    rid = "C12.R5"
+    ctx.rule(rid, "rank validation: validate_rank answers Ok only after the square count was tested against 8 and the adjacent-digit scan ran to the end of the rank; every rank is validated before from_str answers Ok", floor=4)
+    f = ctx.fn(rid, "inkayaku_core::fen::Fen::validate_rank")
+    cfg, ex = Cfg(f), Exprs(f)
+    ok_blocks, err_blocks = [], []
+    for b in sorted(cfg.reach):
+        if f["blocks"][b]["cleanup"]:
+            continue
+        for st in f["blocks"][b]["stmts"]:
+            d = st["dst"]
+            if d is not None and d["l"] == 0 and not d["p"] and st["rv"]["op"] == "agg":
+                (ok_blocks if st["rv"].get("variant") == "Ok" else err_blocks).append((b, st["line"]))
+            elif d is not None and d["l"] == 0 and not d["p"]:
+                ok_blocks.append((b, st["line"]))   # a constant or copied result: judged like an Ok exit
+    if not ok_blocks:
+        ctx.lost(rid, "validate_rank: no Ok exit found")
+        return
+    # loops with the adjacent-digit test
+    scans = []
+    for (a, h) in cfg.back_edges():
+        body, work = {h}, [a]
+        while work:
+            x = work.pop()
+            if x in body:
+                continue
+            body.add(x)
+            work.extend(cfg.pred[x])
+        digit_tests = [x for x in body if f["blocks"][x]["term"]["k"] == "call" and (f["blocks"][x]["term"]["callee"].get("key") or "").endswith("::is_ascii_digit")]
+        rejects = [bb for bb, _ in err_blocks if any(cfg.dominates(y, bb) for y in digit_tests)]
+        if len(digit_tests) >= 2 and rejects:
+            # the loop's own test: first switch after the header
+            ns = h
+            for _ in range(8):
+                if f["blocks"][ns]["term"]["k"] == "switch":
+                    break
+                nxt = [x for x in cfg.succ[ns] if not f["blocks"][x]["cleanup"]]
+                ns = nxt[0] if len(nxt) == 1 else None
+                if ns is None:
+                    break
+            if ns is not None:
+                finished = [x for x in cfg.succ[ns] if x not in body]
+                scans.append((h, ns, finished))
+    if not scans:
+        ctx.lost(rid, "validate_rank: a loop testing two neighbouring characters with is_ascii_digit and rejecting when both are digits")
+        return
+    for b, line in ok_blocks:
+        ok = any(any(cfg.dominates(x, b) for x in fin) for (_, _, fin) in scans)
+        ctx.ob(rid, "validate_rank|ok-after-complete-digit-scan", ok,
+               "" if ok else "validate_rank can answer Ok without having scanned the whole rank for adjacent digits (an exit that bypasses the loop or leaves it early): ranks such as `PPPP1111` would be accepted",
+               ctx.where(f, line))
+    # the count test
+    count_sw = []
+    for b in sorted(cfg.reach):
+        t = f["blocks"][b]["term"]
+        if t["k"] == "switch":
+            d = ex.operand(t["discr"])
+            if d[0] == "bin" and d[1] in ("Ne", "Eq") and any(x[0] == "c" and x[1] == 8 for x in (d[2], d[3])) and any(y[0] == "call" and y[1].endswith("Iterator::sum") for y in leaves(d)):
+                eq_edge = t["otherwise"] if d[1] == "Eq" else t["targets"][0][1]
+                count_sw.append((b, eq_edge))
+    ok = len(count_sw) == 1 and all(cfg.dominates(count_sw[0][1], b) for b, _ in ok_blocks)
+    ctx.ob(rid, "validate_rank|ok-only-with-eight-squares", ok, "" if ok else "validate_rank can answer Ok without the square count having been compared with 8", ctx.where(f))
+    # every rank goes through validate_rank, and from_str validates before it answers Ok
+    g = ctx.fn(rid, "inkayaku_core::fen::Fen::validate_ranks")
+    exg = Exprs(g)
+    calls = [t["callee"].get("key") or "" for t in (b["term"] for b in g["blocks"]) if t["k"] == "call"]
+    closure_args = []
+    for b in g["blocks"]:
+        t = b["term"]
+        if t["k"] == "call" and (t["callee"].get("key") or "").endswith("Iterator::map"):
+            closure_args += [show(exg.operand(a)) for a in t["args"]]
+    ok = any(c.endswith("str::<str>::split") for c in calls) and any("validate_rank" in a for a in closure_args) and any(c.endswith("Iterator::find") for c in calls)
+    ctx.ob(rid, "validate_ranks|every-rank", ok, "" if ok else "validate_ranks is no longer split('/').map(validate_rank).find(is_err): calls %s" % [c.rsplit("::", 1)[-1] for c in calls], ctx.where(g))
+    h = ctx.fn(rid, "inkayaku_core::fen::<Fen as FromStr>::from_str")
+    hc = Cfg(h)
+    vcalls = [b for b in sorted(hc.reach) if h["blocks"][b]["term"]["k"] == "call" and (h["blocks"][b]["term"]["callee"].get("key") or "").endswith("Fen::validate_ranks")]
+    parse_calls = [b for b in sorted(hc.reach) if h["blocks"][b]["term"]["k"] == "call" and (h["blocks"][b]["term"]["callee"].get("key") or "").endswith("Fen::parse")]
+    oks = []
+    for b in sorted(hc.reach):
+        for st in h["blocks"][b]["stmts"]:
+            d = st["dst"]
+            if d is not None and d["l"] == 0 and not d["p"] and st["rv"]["op"] == "agg" and st["rv"].get("variant") == "Ok":
+                oks.append((b, st["line"]))
+    # Ok exits after the grammar match must also be after the rank validation
+    late = [(b, l) for b, l in oks if parse_calls and any(hc.dominates(p_, b) for p_ in parse_calls)]
+    ok = len(vcalls) == 1 and bool(late) and all(hc.dominates(vcalls[0], b) for b, _ in late)
+    ctx.ob(rid, "from_str|ok-after-rank-validation", ok, "" if ok else "Fen::from_str can answer Ok for a parsed string without validate_ranks having run", ctx.where(h))
+
+
 def run(ctx):
     r2_tables(ctx)
     r3_squares(ctx)
     r4_defaults(ctx)
+    r5_rejections(ctx)
